@@ -37,7 +37,7 @@ TRUSTED = [
 ]
 ASSUMPTIONS = ['only the C / C.utf8 / POSIX locales are installed in the sandbox; other LC_TIME locales could not be exercised']
 RULE = ('instants: 0, 2^31 +-1, 253402300799, every month/year boundary +-1s for sampled years, leap days (incl. 2000, 2100), DST transition instants of the six zones for sampled years +-1s/+-1h, random; '
-	'each in the three textual forms; every case is run under TZ in {UTC, Europe/Berlin, America/New_York, Asia/Kolkata, Australia/Lord_Howe, Pacific/Apia} x LC_TIME in {C, C.utf8, and a private non-English locale built from C.utf8 with other day and month names (activated through LOCPATH)}; also as the value of the three date-carrying header fields and handed over as aware / naive datetime objects; '
+	'each in the three textual forms; every case is run under TZ in {UTC, Europe/Berlin, America/New_York, Asia/Kolkata, Australia/Lord_Howe, Pacific/Apia} x LC_TIME in {C, C.utf8, and a private non-English locale built from C.utf8 with other day and month names (activated through LOCPATH)}; also as the value of the three date-carrying header fields and as the expires attribute of Set-Cookie fields and handed over as aware / naive datetime objects; '
 	'non-trivial = all configurations agree with the model on compose and on the three parses; distinct by instant')
 
 ZONES = ['UTC', 'Europe/Berlin', 'America/New_York', 'Asia/Kolkata', 'Australia/Lord_Howe', 'Pacific/Apia']
@@ -244,8 +244,8 @@ def oracle(case):
 		for i, form in ((4, 'IMF-fixdate'), (5, 'RFC 850 form'), (6, 'asctime form')):
 			if form == 'RFC 850 form' and not 1970 <= year <= 2068:
 				continue
-			if base[i] != ('%d' % t + ' ') * 2 + '%d' % t:
-				bad.append('%s as a header field value (Last-Modified, If-Modified-Since, If-Unmodified-Since) gives %s' % (form, base[i]))
+			if base[i] != ('%d' % t + ' ') * 3 + '2:%d,%d' % (t, t):
+				bad.append('%s as a header field value (Last-Modified, If-Modified-Since, If-Unmodified-Since, then number of Set-Cookie elements : their expires instants) gives %s' % (form, base[i]))
 		# the instant handed over as datetime objects (aware with six offsets, naive UTC)
 		if year <= 9998 and base[7] != ' '.join(['%s:%d:1' % (imf.hex(), t)] * 7):
 			bad.append('Date(datetime) for the instant, aware with offsets 0/+2h/-5:30/+12:45/+14h/-12h and naive UTC, gives (text:instant:equal) %s' % base[7])
